@@ -4,7 +4,7 @@
 # load-induced timeouts likelier, which would be recorded as detections).
 cd /verif
 n=${1:-2}
-ls seeded | sort > /tmp/rerecord.all
+ls seeded | sort | grep -v "${SEED_SKIP:-^$}" > /tmp/rerecord.all
 for i in $(seq 0 $((n-1))); do
   ( awk -v n=$n -v i=$i 'NR % n == i' /tmp/rerecord.all | while read s; do
       p=${s%%-*}
